@@ -231,14 +231,49 @@ def run_history(case, props=None):
         elif sorted(map(key, got)) != sorted(map(key, exp)):
             out.append(('C15', f'processes={procs}: results are not exactly one per execution: got {len(got)}, '
                                f'expected {len(exp)}; {sorted(map(key, got))[:3]} vs {sorted(map(key, exp))[:3]}'))
-    elif kind == 'search':
-        import statistics
-        _, grid, reps, mode, procs, sname = case
-        score = SCORES[sname]
+    elif kind in ('search_pl', 'batch_pl'):
+        # one ParameterList object reused across edits: every run must see the declaration as it is *then*
+        _, grid, edits, reps, mode, procs, sname = case
+        pl = B.ParameterList({n: v for n, v in grid.items()})
         decl = list(grid.items())
+        for k, ed in enumerate([None] + list(edits)):
+            if ed is not None:
+                if ed[0] == 'remove':
+                    pl.remove_parameter(ed[1])
+                    decl = [(n, v) for n, v in decl if n != ed[1]]
+                else:
+                    pl.add_parameter(ed[1], ed[2])
+                    decl.append((ed[1], ed[2]))
+            if kind == 'search_pl':
+                sub = _search(B, pl, decl, reps, mode, procs, sname)
+            else:
+                combos = expected_product(decl)
+                exp = [[(dict(c).get('a', 0), dict(c).get('b', 0), t) for t in range(min(dict(c).get('stop', 3), 4))]
+                       for c in combos * reps]
+                try:
+                    got = B.batch_run(BM, pl, collectors='rec', processes=procs, max_timesteps=4, repetitions=reps)
+                    sub = [] if [repr(r) for r in got] == [repr(r) for r in exp] or (
+                        procs > 1 and sorted(map(repr, got)) == sorted(map(repr, exp))) else [
+                        ('C15', f'results {got!r:.200} differ from the declaration as it is now {exp!r:.200}')]
+                except Exception as ex:
+                    sub = [('C15', f'batch_run raised {type(ex).__name__}: {ex}')]
+            out += [(p_, f'run #{k} (after edits {list(edits)[:k]}): {m_}') for p_, m_ in sub]
+            if out:
+                break
+    elif kind == 'search':
+        _, grid, reps, mode, procs, sname = case
+        out += _search(B, {n: v for n, v in grid.items()}, list(grid.items()), reps, mode, procs, sname)
+    return out
+
+
+def _search(B, gridarg, decl, reps, mode, procs, sname):
+    import statistics
+    out = []
+    if True:
+        score = SCORES[sname]
         combos = expected_product(decl)
         try:
-            best, results = B.grid_search(BM, {n: v for n, v in grid.items()}, score, processes=procs, max_timesteps=50,
+            best, results = B.grid_search(BM, gridarg, score, processes=procs, max_timesteps=50,
                                           repetitions=reps, mode=B.ScoreMode(mode))
         except Exception as ex:
             return [('C16', f'grid_search raised {type(ex).__name__}: {ex}')]
@@ -332,6 +367,8 @@ def histories(seed, budget, prop='C14'):
         for g in grids[:2]:
             for fail_at in ('first', 'last'):
                 yield ('batch', g, 1, 3, 'rec', 1, fail_at)
+        yield ('batch_pl', {'a': [1, 2], 'b': [0, 1]}, [('remove', 'b'), ('add', 'b', [5]), ('remove', 'a')], 1, 0, 1, 'sum')
+        yield ('batch_pl', {'a': [1, 2, 3]}, [('add', 'b', [0, 1]), ('remove', 'a'), ('add', 'a', 7)], 2, 0, 1, 'sum')
         for procs in (2, 3):
             yield ('batch', grids[0], 2, 3, 'rec', procs, None)
             yield ('batch', grids[3], 1, 2, ['rec', 'rec2'], procs, None)
@@ -342,6 +379,11 @@ def histories(seed, budget, prop='C14'):
             for mode in range(8):
                 for sname in ('sum', 'big', 'neg', 'tie', 'work'):
                     yield ('search', g, 2 if mode >= 6 else rng.choice([1, 2]), mode, 1, sname)
+        for mode in (0, 1, 2):
+            yield ('search_pl', {'a': [3, 1, 2], 'b': [0, 1]}, [('remove', 'b'), ('add', 'b', [4, 0]), ('remove', 'a')],
+                   1, mode, 1, 'sum')
+            yield ('search_pl', {'a': [1, 2]}, [('add', 'b', [0, 1, 2]), ('remove', 'a'), ('add', 'a', [5, 0])],
+                   2, mode, 1, 'work')
         for mode in (0, 1, 3):
             yield ('search', grids[1], 2, mode, 2, 'sum')
             yield ('search', grids[0], 1, mode, 2, 'big')
